@@ -302,10 +302,26 @@ pub fn check_text(ctx: &mut Ctx, text: &str, workload: &str) {
             && p2.extern_pragma_map == p.extern_pragma_map
             && p2.get_used_qubits() != p.get_used_qubits()
         {
-            sig = "reparse-differs:only-the-used-qubit-cache-differs".into();
+            // which way is the original's cache wrong?  (mentioned = the library's own get_qubits
+            // over the listing)
+            let mentioned: std::collections::HashSet<quil_rs::instruction::Qubit> = listing
+                .iter()
+                .flat_map(|i| i.get_qubits().into_iter().cloned())
+                .collect();
+            let used = p.get_used_qubits();
+            let class = if mentioned.is_subset(used) && p2.get_used_qubits() == &mentioned {
+                // the known defect: a replaced calibration's qubits stay in the cache
+                "cache-keeps-stale-qubits"
+            } else if !mentioned.is_subset(used) {
+                "cache-lacks-mentioned-qubits"
+            } else {
+                "other"
+            };
+            sig = format!("reparse-differs:only-the-used-qubit-cache-differs:{class}");
             detail["used_qubits"] = json!({
-                "original": format!("{:?}", p.get_used_qubits()),
+                "original": format!("{:?}", used),
                 "reparsed": format!("{:?}", p2.get_used_qubits()),
+                "mentioned_by_listing": format!("{:?}", mentioned),
             });
         }
         if listing.len() != l2.len() {
@@ -415,6 +431,47 @@ const BATTERY: &[&str] = &[
     "DEFFRAME 0 \"a\":\n    K: 1\nDEFFRAME 1 \"b\":\n    K: 2\nDEFFRAME 2 \"c\":\n    K: 3\nDEFFRAME 3 \"d\":\n    K: 4",
 ];
 
+fn redefinition_program(rng: &mut crate::core::Rng) -> String {
+    const HEADERS: &[&str] = &[
+        "DEFCAL X 0", "DEFCAL RX(%t) q", "DEFCAL CZ 0 1", "DEFCAL MEASURE 0 addr", "DEFCAL MEASURE q",
+        "DEFCIRCUIT C q", "DEFCAL DAGGER X 0", "DEFCAL RX(pi/2) 0",
+    ];
+    const BODY: &[&str] = &[
+        "Y 1", "Y 2", "X 1", "Z 3", "FENCE 3", "FENCE 1 2", "DELAY 4 1.0", "NOP", "PULSE 2 \"rf\" w",
+        "SHIFT-PHASE 1 \"rf\" 0.5", "CNOT 1 2", "MEASURE 2 ro", "RESET 3", "H 5", "CAPTURE 4 \"ro\" k ro[0]",
+    ];
+    const OTHER: &[&str] = &[
+        "DEFFRAME 0 \"rf\":\n    SAMPLE-RATE: 1.0", "DEFFRAME 0 \"rf\":\n    DIRECTION: \"tx\"", "DECLARE ro BIT[2]",
+        "DECLARE ro REAL[1]", "DEFWAVEFORM w:\n    1, 2", "DEFWAVEFORM w:\n    3", "DEFGATE G:\n    1, 0\n    0, 1",
+        "DEFGATE G AS PERMUTATION:\n    1, 0", "PRAGMA EXTERN f \"INTEGER\"", "PRAGMA EXTERN f \"REAL (a : REAL)\"",
+    ];
+    let mut out = String::new();
+    let header = *rng.pick(HEADERS);
+    let copies = 2 + rng.below(2);
+    let mut remaining = copies;
+    let total = copies + rng.below(5);
+    for k in 0..total {
+        let put_def = remaining > 0 && (rng.chance(1, 2) || total - k <= remaining);
+        if put_def {
+            remaining -= 1;
+            out.push_str(header);
+            out.push(':');
+            for _ in 0..1 + rng.below(2) {
+                out.push_str("\n    ");
+                out.push_str(*rng.pick(BODY));
+            }
+            out.push('\n');
+        } else if rng.chance(1, 4) {
+            out.push_str(*rng.pick(OTHER));
+            out.push('\n');
+        } else {
+            out.push_str(*rng.pick(BODY));
+            out.push('\n');
+        }
+    }
+    out
+}
+
 fn run(ctx: &mut Ctx) {
     let tier = ctx.tier;
     let mut idx = 0u64;
@@ -432,6 +489,17 @@ fn run(ctx: &mut Ctx) {
                 }
             }
         }
+        if ctx.done() {
+            return;
+        }
+    }
+    // programs that define the same keyed definition several times, interleaved with body
+    // instructions over a small qubit set (the grammar generator almost never repeats a key)
+    let mut rrng = ctx.rng(2);
+    let n_redef = ctx.share(tier.pick(60_000, 600_000));
+    for _ in 0..n_redef {
+        let text = redefinition_program(&mut rrng);
+        check_text(ctx, &text, "workload:redefinitions");
         if ctx.done() {
             return;
         }
